@@ -301,11 +301,22 @@ def check(ctx):
     rec_calls = [n for n in g.nodes if n.kind == "call" and pi in an.callees(pi, n)]
     ctx.need(bool(inc_calls) and bool(rec_calls), "_process_includes no longer includes / recurses")
     tparam = pi.positional_params[2]
+    inc_asts = {id(n.ast) for n in inc_calls}
+
+    def current_tree(e, node, need_all=False):
+        """a name that holds the tree being built: the parameter or the result of an include, nothing else"""
+        if not isinstance(e, ast.Name):
+            return False
+        srcs = value_sources(pi, e, node)
+        ok_ = bool(srcs) and all((k == "param" and pl == tparam) or (k == "expr" and id(pl) in inc_asts) for k, pl in srcs)
+        if ok_ and need_all:
+            ok_ = inc_asts <= {id(pl) for k, pl in srcs if k == "expr"}
+        return ok_
     for n in inc_calls:
         # the tree passed is the current tree, and the result becomes the current tree
         par = getattr(n.ast, "_parent", None)
-        rebinds = isinstance(par, ast.Assign) and any(isinstance(t, ast.Name) and t.id == tparam for t in par.targets)
-        passes = len(n.ast.args) >= 4 and isinstance(n.ast.args[3], ast.Name) and n.ast.args[3].id == tparam
+        passes = len(n.ast.args) >= 4 and current_tree(n.ast.args[3], n)
+        rebinds = passes and isinstance(par, ast.Assign) and any(isinstance(t, ast.Name) and t.id == n.ast.args[3].id for t in par.targets)
         ctx.ob("includes.chain", pi, n.ast, rebinds and passes, "each include merges into the tree produced by the previous one" if rebinds and passes else
                "the result of an include is dropped or a stale tree is passed on", node=n)
         fn_arg = n.ast.args[2] if len(n.ast.args) >= 3 else None
@@ -319,15 +330,22 @@ def check(ctx):
             ctx.ob("includes.before-nested", pi, r.ast, p is None, "nested scopes are processed after this scope's includes" if p is None else
                    "a nested scope is processed before this scope's includes were merged: includes inside an included sub-tree are missed", node=r)
         par = getattr(r.ast, "_parent", None)
-        stored = isinstance(par, ast.Assign) and any(isinstance(t, ast.Subscript) and isinstance(t.value, ast.Name) and t.value.id == tparam for t in par.targets)
+        stored = isinstance(par, ast.Assign) and any(isinstance(t, ast.Subscript) and current_tree(t.value, r, need_all=True) for t in par.targets)
         lk = lookup_key(pi, r.ast.args[1], r) if len(r.ast.args) >= 2 else None
         samekey = stored and lk is not None and ast.unparse(par.targets[0].slice) == ast.unparse(lk) and rooted_at_param(pi, r.ast.args[1], {tparam}, r)
+        if not samekey and isinstance(par, ast.DictComp) and par.value is r.ast and lk is not None:
+            # tree.update({key: self._process_includes(sub, tree[key], ...) for key, sub in nested if ...})
+            upd = getattr(par, "_parent", None)
+            un = [x for x in g.nodes if x.ast is upd]
+            samekey = isinstance(upd, ast.Call) and isinstance(upd.func, ast.Attribute) and upd.func.attr == "update" and upd.args == [par] and not upd.keywords \
+                and current_tree(upd.func.value, un[0] if un else r, need_all=True) and ast.unparse(par.key) == ast.unparse(lk) \
+                and rooted_at_param(pi, r.ast.args[1], {tparam}, r)
         ctx.ob("nested.stored-back", pi, r.ast, bool(samekey), "the nested result replaces the nested tree under the same key" if samekey else
                "the result of processing a nested scope is not stored back under its key", node=r)
         oks = len(r.ast.args) >= 1 and any(k == "iter" for k, _ in value_sources(pi, r.ast.args[0], r))
         ctx.ob("nested.uses-sub-schema", pi, r.ast, oks, "recursion uses the nested schema" if oks else "recursion does not use the nested schema", node=r)
     for r in returns_of(an, pi):
-        okr = isinstance(r.ast.value, ast.Name) and r.ast.value.id == tparam
+        okr = current_tree(r.ast.value, r, need_all=True)
         ctx.ob("returns-tree", pi, r.ast, okr, "returns the merged tree" if okr else "_process_includes does not return the merged tree", node=r)
     from .paths import check_filename_resolution
     check_filename_resolution(ctx)
